@@ -84,6 +84,17 @@ func (c *Ctx) fanOut(fn *ssa.Function) {
 	scN := scNodes[0]
 	sc := scN.Instr.(*ssa.Call)
 	a := sc.Common().Args
+	// nothing before the lookup can end the delivery: a failing update of the retained store (an empty payload clears
+	// a message that may not exist) is no reason to withhold the message from the subscribers
+	var afterRetain []paths.Node
+	for _, rn := range nodesMatching(g, nodeM(mMethod(pkgTopics, "Manager", "Retain"))) {
+		afterRetain = append(afterRetain, g.Succ(rn)...)
+	}
+	if pth := g.FindPath(afterRetain, func(nd paths.Node) bool { return nd.Instr == ssa.Instruction(sc) }, isExit); pth != nil {
+		c.R.Bad(ruleP2, name+":fan-out:lookup-on-every-path", c.P.InstrPos(pth[len(pth)-1].Instr), name+" can return after the retained-store step without having looked the subscribers up (an error of that step ends it): the PUBLISH was accepted - and acknowledged - but no subscriber receives it", c.witness(g, pth)...)
+	} else {
+		c.R.Ok(ruleP2, name+":fan-out:lookup-on-every-path", pos, "once the retained store was updated every path reaches the subscriber lookup")
+	}
 	var msg ssa.Value
 	for _, p := range fn.Params {
 		if namedName(p.Type()) == "PublishMessage" {
